@@ -443,3 +443,7 @@ impl Iterator for FragBitVecIterator {
 //     }
 //   }
 // }
+
+#[cfg(rustdds_verif)]
+#[path = "/verif/harness/incrate/access/rtps_reader_proxy.rs"]
+mod verif_access;
